@@ -217,6 +217,13 @@ func successors(p *program, reduced bool, must string) []*program {
 						if op == "LSTM" && hv != "" {
 							ins = append(ins, H[0]) // initial_c
 						}
+						if op == "LSTM" && hv == "" && len(H) > 0 {
+							ins = append(ins, H[len(H)-1]) // initial_c wired while initial_h is skipped by an empty name
+						}
+					}
+					if op == "LSTM" && len(H) > 0 && hv == H[0] {
+						// extra wiring: initial_h wired, initial_c omitted
+						emit(pNode{Op: op, Attrs: attrs, In: []string{x, wn, rn, bn, "", hv}, Out: []string{fresh(0), fresh(1), fresh(2)}, NRet: nret, Inits: inits, Desc: fmt.Sprintf("{h=%q c omitted%s}", hv, actDesc)}, sorts)
 					}
 					var schemes [][]string
 					spec := []string{"Y", "Y_h", "Y_c"}[:nret]
